@@ -1708,7 +1708,7 @@ def enumerate_config(ctx, base, limit=None):
 
 def plan(tier):
     if tier == 'quick':
-        return [{'n': 280, 'e2e': 12, 'enum': None} for i in range(16)]
+        return [{'n': 220, 'e2e': 10, 'enum': None} for i in range(16)]
     return [{'n': 20000, 'e2e': 150, 'enum': i} for i in range(16)]
 
 
